@@ -75,6 +75,10 @@ func mapOrder(c *Ctx, rule string, only map[*types.Func]bool) int {
 			}
 			if allSorted {
 				c.OK(rule, key, rs.Pos(), "appended slice is sorted after the loop: "+what)
+			} else if lenOneBefore(p, fb.Body, rs.Pos(), types.ExprString(rs.X)) {
+				c.OK(rule, key, rs.Pos(), "the loop is reached only when the map has exactly one entry (len != 1 returns before it)")
+			} else if singleEntryCallers(p, fb, rs) {
+				c.OK(rule, key, rs.Pos(), "the ranged map is a parameter and every caller returns before the call unless it has exactly one entry")
 			} else {
 				c.Bad(rule, key, rs.Pos(), "order-sensitive effect not followed by a sort: "+what)
 			}
@@ -82,6 +86,87 @@ func mapOrder(c *Ctx, rule string, only map[*types.Func]bool) int {
 		})
 	}
 	return n
+}
+
+// singleEntryCallers: rs ranges over a parameter of fb, and each call of fb in
+// the package is preceded, in its caller, by `if len(arg) != 1 { return }`.
+func singleEntryCallers(p *Program, fb funcBody, rs *ast.RangeStmt) bool {
+	id := identOf(rs.X)
+	fd := p.FuncDecls[fb.Decl]
+	if id == nil || fd == nil || fd.Type.Params == nil {
+		return false
+	}
+	idx, k := -1, 0
+	for _, f := range fd.Type.Params.List {
+		for _, n := range f.Names {
+			if p.Info.Defs[n] == p.Info.ObjectOf(id) {
+				idx = k
+			}
+			k++
+		}
+	}
+	if idx < 0 {
+		return false
+	}
+	calls := 0
+	ok := true
+	for _, other := range p.funcBodies() {
+		if other.Lit != nil {
+			continue
+		}
+		other := other
+		ast.Inspect(other.Body, func(n ast.Node) bool {
+			call, isCall := n.(*ast.CallExpr)
+			if !isCall {
+				return true
+			}
+			if callee, _ := typeutil.Callee(p.Info, call).(*types.Func); callee != fb.Decl || idx >= len(call.Args) {
+				return true
+			}
+			calls++
+			if !lenOneBefore(p, other.Body, call.Pos(), types.ExprString(call.Args[idx])) {
+				ok = false
+			}
+			return true
+		})
+	}
+	return calls > 0 && ok
+}
+
+// lenOneBefore: an `if len(X) != 1 { ...return }` statement of body precedes pos.
+func lenOneBefore(p *Program, body *ast.BlockStmt, pos token.Pos, x string) bool {
+	for _, st := range body.List {
+		if st.Pos() >= pos {
+			break
+		}
+		is, ok := st.(*ast.IfStmt)
+		if !ok {
+			continue
+		}
+		b, ok := ast.Unparen(is.Cond).(*ast.BinaryExpr)
+		if !ok || b.Op != token.NEQ {
+			continue
+		}
+		call, ok := b.X.(*ast.CallExpr)
+		if !ok || len(call.Args) != 1 {
+			continue
+		}
+		if id := identOf(call.Fun); id == nil || id.Name != "len" {
+			continue
+		}
+		if types.ExprString(call.Args[0]) != x {
+			continue
+		}
+		if lit, ok := b.Y.(*ast.BasicLit); !ok || lit.Value != "1" {
+			continue
+		}
+		if len(is.Body.List) > 0 {
+			if _, ok := is.Body.List[len(is.Body.List)-1].(*ast.ReturnStmt); ok {
+				return true
+			}
+		}
+	}
+	return false
 }
 
 // lenOneGuard: an `if len(X) != 1 { return }` on the ranged map precedes rs.
